@@ -1,6 +1,7 @@
 import PRV.Driver.C19
 import PRV.Driver.C10
 import PRV.Driver.C20
+import PRV.Driver.C11
 
 open PRV.Driver
 
@@ -11,4 +12,5 @@ def main (args : List String) : IO UInt32 := do
   | ["model", "c10"] => run C10.machine; return 0
   | ["monitor", "c10"] => runMonitor C10.monitor; return 0
   | ["monitor", "c20"] => runMonitor C20.monitor; return 0
+  | ["monitor", "c11"] => runMonitor C11.monitor; return 0
   | _ => IO.eprintln "usage: prvdrv (model|spec) <property>"; return 2
